@@ -165,7 +165,9 @@ func (*c20) execute(c c20Case) any {
 	case "strvals":
 		return c20ExecStrvals(c.Strvals)
 	case "explore":
-		if c20UseWorker() {
+		// the helm-template path can die of stack exhaustion (unbounded tpl recursion before
+		// 156f591), which recover() cannot catch: always in the child process
+		if c20UseWorker() || c.Explore.Target == "template" {
 			return c20ViaWorker(c.Explore)
 		}
 		return c20ExecExplore(c.Explore)
